@@ -19,7 +19,13 @@ import (
 type step struct {
 	K   string `json:"k"`             // "send" | "act" | "await"
 	Raw string `json:"raw,omitempty"` // bytes the peer sends
-	Act string `json:"act,omitempty"` // application action
+	Act string `json:"act,omitempty"` // application action ("session.close": the application closes its output stream now)
+	// A reply to an application call may be delivered in pieces cut at these byte
+	// offsets, with the call's context cancelled before piece CancelAt
+	// (len(pieces) = after the last one, -1 = never).
+	Cuts     []int  `json:"cuts,omitempty"`
+	Cancel   string `json:"cancel,omitempty"`
+	CancelAt int    `json:"cancel_at,omitempty"`
 }
 
 // script is a complete workload-1 case, written out as the sample.
@@ -31,7 +37,10 @@ type script struct {
 	Prefixed bool     `json:"prefixed,omitempty"` // namespaces declared as prefixes on the stanza element
 	ReadAll  bool     `json:"read_all,omitempty"` // history consumer reads every token
 	Close    bool     `json:"closing_tag"`        // end with </stream:stream> (else bare EOF)
-	Steps    []step   `json:"steps"`
+	// after the application's Session.Close the remaining stanzas are sent
+	// without sentinel pings (a ping's reply cannot be written and ends Serve)
+	NoSentinelAfterClose bool   `json:"no_sentinel_after_close,omitempty"`
+	Steps                []step `json:"steps"`
 }
 
 // ---------------------------------------------------------------------------
@@ -367,7 +376,79 @@ func genScript(r *rand.Rand, i int) *script {
 		}
 	}
 	sort.Strings(sc.Muts)
+
+	// (new choices are drawn last so that the stanzas of a case stay what they were)
+	if round > 0 {
+		// replies to application calls delivered in pieces, the call's context
+		// cancelled before, between or after them
+		actID := map[string]string{"muc.join": "j1", "muc.leave": "l1", "rcpt.send": "r1", "ibb.open": "o1", "hist.fetch": "h1"}
+		var started []string
+		for k := range sc.Steps {
+			st := &sc.Steps[k]
+			if st.K == "act" {
+				started = append(started, st.Act)
+				continue
+			}
+			if st.K != "send" || len(started) == 0 || len(st.Raw) < 8 {
+				continue
+			}
+			target := ""
+			for j := len(started) - 1; j >= 0 && target == ""; j-- {
+				if id := actID[started[j]]; id != "" && strings.Contains(st.Raw, "id='"+id+"'") {
+					target = started[j]
+				}
+			}
+			if started[len(started)-1] == "muc.leave" && strings.Contains(st.Raw, "unavailable") && strings.Contains(st.Raw, roomMe) {
+				target = "muc.leave"
+			}
+			if target == "" || r.Intn(3) > 0 {
+				continue
+			}
+			st.Cuts, st.CancelAt = chooseSplit(r, st.Raw, 0)
+			st.Cancel = target
+		}
+		// the application closes its output stream while the peer keeps sending
+		if r.Intn(8) == 0 {
+			pos := r.Intn(len(sc.Steps) + 1)
+			steps := append([]step{}, sc.Steps[:pos]...)
+			steps = append(steps, step{K: "act", Act: "session.close"})
+			sc.Steps = append(steps, sc.Steps[pos:]...)
+			sc.NoSentinelAfterClose = r.Intn(2) == 0
+			sc.Muts = append(sc.Muts, "local-close")
+		}
+	}
 	return sc
+}
+
+// chooseSplit picks cut offsets (2 or 3 pieces; half of the time the first cut
+// is right after the start tag of the stanza that begins at replyOff) and the
+// piece before which the call is cancelled.
+func chooseSplit(r *rand.Rand, raw string, replyOff int) (cuts []int, cancelAt int) {
+	if len(raw) < 4 {
+		return nil, -1
+	}
+	first := 1 + r.Intn(len(raw)-1)
+	if r.Intn(2) == 0 {
+		if i := strings.IndexByte(raw[replyOff:], '>'); i >= 0 && replyOff+i+1 < len(raw) {
+			first = replyOff + i + 1
+		}
+	}
+	cuts = []int{first}
+	if r.Intn(3) == 0 && first+1 < len(raw) {
+		cuts = append(cuts, first+1+r.Intn(len(raw)-first-1))
+	}
+	n := len(cuts) + 1
+	switch x := r.Intn(20); {
+	case x < 4:
+		cancelAt = -1
+	case x < 7:
+		cancelAt = 0
+	case x < 17:
+		cancelAt = 1 + r.Intn(n-1)
+	default:
+		cancelAt = n
+	}
+	return cuts, cancelAt
 }
 
 // ---------------------------------------------------------------------------
@@ -475,6 +556,13 @@ func (e *env) runAct(name string) *action {
 	return nil
 }
 
+// localClose is the application closing its output stream in mid-session.
+func (e *env) localClose() {
+	e.c.Guard("Session.Close", func() { e.s.Close() })
+	e.closedLocally = true
+	e.c.Count("w1_local_close_cases", 1)
+}
+
 // ---------------------------------------------------------------------------
 // driver
 
@@ -502,26 +590,63 @@ func runScript(c *core.Case, sc *script) {
 		for _, s := range sc.Steps {
 			switch s.K {
 			case "act":
+				if s.Act == "session.close" {
+					e.localClose()
+					continue
+				}
 				if a := e.runAct(s.Act); a != nil && a.reqID != "" {
 					e.wait(func() bool { return a.finished() || e.sawID(a.reqID) || e.served() }, "request of "+s.Act, false)
 				}
 			case "send":
 				nSent++
 				all.WriteString(s.Raw)
-				all.WriteString(fmt.Sprintf(sentinelPing, fmt.Sprintf("sentinel-%d", nSent)))
+				if e.closedLocally {
+					c.Count("stanzas_sent_after_local_close", 1)
+				}
+				if !(e.closedLocally && sc.NoSentinelAfterClose) {
+					all.WriteString(fmt.Sprintf(sentinelPing, fmt.Sprintf("sentinel-%d", nSent)))
+				}
 			}
 		}
 		e.peerWrite(all.String())
 	} else {
-		for _, s := range sc.Steps {
+		for k, s := range sc.Steps {
 			if e.served() {
+				break
+			}
+			if s.K == "act" && s.Act == "session.close" {
+				// The application closes its output stream; Serve keeps running until
+				// the peer ends its side.  Everything the peer still has to say is
+				// sent in one write (replies can no longer be observed), then the
+				// input ends: Serve must return.
+				e.localClose()
+				var rest strings.Builder
+				for _, t := range sc.Steps[k+1:] {
+					if t.K != "send" {
+						continue
+					}
+					nSent++
+					c.Count("stanzas_sent_after_local_close", 1)
+					rest.WriteString(t.Raw)
+					if !sc.NoSentinelAfterClose {
+						rest.WriteString(fmt.Sprintf(sentinelPing, fmt.Sprintf("sentinel-%d", nSent)))
+					}
+				}
+				e.peerWrite(rest.String())
 				break
 			}
 			switch s.K {
 			case "send":
 				nSent++
 				sid := fmt.Sprintf("sentinel-%d", nSent)
-				e.peerWrite(s.Raw + fmt.Sprintf(sentinelPing, sid))
+				if len(s.Cuts) > 0 {
+					e.mu.Lock()
+					a := e.acts[s.Cancel]
+					e.mu.Unlock()
+					e.deliverSplit(s.Raw, s.Cuts, s.CancelAt, a, fmt.Sprintf(sentinelPing, sid))
+				} else {
+					e.peerWrite(s.Raw + fmt.Sprintf(sentinelPing, sid))
+				}
 				// what does an independent parser make of the input so far?
 				st := xmltree.ParseStream(e.input(), true)
 				switch {
